@@ -48,6 +48,12 @@ def gen(ch, cfg, prefix):
         for n_, it in enumerate(items):
             if type(it).__name__ == "Item":
                 it.key = it.key * 2 + (n_ % 2)
+    elif sc.key is not None and ch.chance(1, 8):
+        sc.key.kind = "idobj"  # keys equal only to themselves
+    elif sc.key is not None and ch.chance(1, 8):
+        # a key that depends on how often it has been called (the chunking idiom with a counter)
+        sc.key.kind = "feed"
+        sc.key.param = tuple(i // (2 + len(items) % 2) for i in range(len(items) + 3))
     elif sc.key is not None and ch.chance(1, 4):
         sc.key.kind = "divnone"  # a key function for which None is a legitimate key
     elif sc.key is None and items and ch.chance(1, 4):
@@ -62,7 +68,8 @@ def gen(ch, cfg, prefix):
     ops = []
     for _ in range(ch.between(1, 15)):
         # advance the groupby | advance group -i | close group -i | drain group -i through a library consumer (list)
-        ops.append((ch.weighted([6, 9, 1, 1]), ch.draw(3)))
+        # ... | drop the last reference to the groupby object itself (the groups handed out stay in use)
+        ops.append((ch.weighted([12, 18, 2, 2, 1]), ch.draw(3)))
     sc.ops = ops
     return sc
 
@@ -76,6 +83,14 @@ async def history_async(sc, world, results):
     log = world.log
     for n, (op, i) in enumerate(sc.ops):
         log.append(("op", n))
+        if op == 4:
+            # nobody refers to the groupby any more; its groups are still good for the rest of their runs
+            gb = None
+            results.append(("dropped",))
+            continue
+        if gb is None and (op == 0 or not groups):
+            results.append(("no_groupby",))
+            continue
         if op == 0 or not groups:
             try:
                 key, grp = await gb.__anext__()
@@ -99,7 +114,8 @@ async def history_async(sc, world, results):
                 results.append(("stop", i % len(groups)))
             else:
                 results.append(("item", i % len(groups), ident(item), item))
-    await gb.aclose()
+    if gb is not None:
+        await gb.aclose()
 
 
 def history_ref(sc, world, results):
@@ -111,6 +127,13 @@ def history_ref(sc, world, results):
     log = world.log
     for n, (op, i) in enumerate(sc.ops):
         log.append(("op", n))
+        if op == 4:
+            gb = None
+            results.append(("dropped",))
+            continue
+        if gb is None and (op == 0 or not groups):
+            results.append(("no_groupby",))
+            continue
         if op == 0 or not groups:
             try:
                 key, grp = next(gb)
@@ -166,7 +189,7 @@ def execute(st, ctx):
 
         def describe(i=None):
             return {"source": sc.src.describe(), "key": sc.key.describe() if sc.key else None,
-                    "ops": [("advance" if o == 0 else "group", i_) for o, i_ in sc.ops],
+                    "ops": [(("advance", "group", "close_group", "drain_group", "drop_groupby")[o], i_) for o, i_ in sc.ops],
                     "async": [repr(r[:3]) for r in results], "itertools": [repr(r[:3]) for r in rresults]}
 
         if len(results) != len(sc.ops):
@@ -220,7 +243,7 @@ def execute(st, ctx):
     if ctx.want_sample:
         sc, world, results = tenants[0]
         out.sample = {"source": sc.src.describe(), "key": sc.key.describe() if sc.key else None,
-                      "ops": [("advance" if o == 0 else "group", i_) for o, i_ in sc.ops],
+                      "ops": [(("advance", "group", "close_group", "drain_group", "drop_groupby")[o], i_) for o, i_ in sc.ops],
                       "results": [repr(r[:3]) for r in results]}
     if ctx.want_log:
         out.log = [[r[:3] for r in results] for _, _, results in tenants] + [w.log for _, w, _ in tenants] + [sim.trace]
